@@ -61,6 +61,15 @@ chk('C12', 'TLA+ declarative Merge vs. implementation pipeline (TrackOps) checke
     'Message content is represented by distinct note_on messages.',
     'DESIGN.md 5/C12')
 
+chk('C07', 'TLA+ SMF byte-level specification (SmfWire: canonical writer + reference decoder) with TLC enumerating abstract files and byte mutants; each file saved/loaded by the real MidiFile and compared with the specified normal form; random files validated by TLC through the reference decoder',
+    'TLC enumerates one-track files over 13 (thorough 16) event kinds x deltas {0,1,128} up to 2 (thorough 3) events, every VLQ size boundary as delta, track counts 0-3 x types 0/1/2 x ticks_per_beat 1/480/32767, and contents that cannot be stored (real-time message, negative / non-integer time, type 0 with another track count), checking RefRead(CanonWrite(f)) = NormalizeFile(f) with all conformance flags; each file is built from real messages, saved, loaded and compared with the normal form (type, tpb, track count, messages and deltas, single trailing end_of_track), unstorable contents must raise ValueError. About 1 900 byte mutants (every offset x 10 values, truncation at every offset) of 5 canonical files are fed to the real loader and the accepted ones checked for the load-save-load fixed point. 100 (thorough 400) random files of 1-4 tracks x up to 30 events with payloads up to 300 bytes are saved by the real code and the bytes validated by TLC with the reference decoder.',
+    'Fixed point read up to end_of_track folding; storability judged on the normal form; known findings D22/D23 listed in known_findings.json.',
+    'DESIGN.md 5/C07')
+chk('C08', 'independent TLA+ reference SMF decoder (SmfWire.RefRead) validating the bytes of the real save(); TLA+ encoder of all legal alternative encodings (SmfEnc) enumerated by TLC and loaded by the real reader with clip/debug on and off',
+    'Write direction: the real save() runs on ~5 500 TLC-enumerated files and 60 (thorough 300) random files; TLC validates every byte string with the reference decoder: exact chunk lengths, minimal VLQs, running status only directly after a channel event of equal status, F0 len data F7, FF 2F 00 last, and decoded events = normal form of the in-memory file. Read direction: TLC enumerates every legal encoding of every list of <= 2 events (thorough also 3) over 13 kinds - running status used or not wherever legal, 0-1 (thorough 2) padding bytes on every delta and length VLQ, header chunk length 6/7/9 - 72 000 encodings in quick, checks them against the reference decoder and each is loaded by the real MidiFile with clip x debug; 1 500 corrupted encodings (one data byte raised above 127) must raise without clip and read as 127 with clip.',
+    'System common events are treated as storable events that cancel running status; byte equality with the canonical writer is not required.',
+    'DESIGN.md 5/C08')
+
 
 def build(not_applicable):
     checks = []
